@@ -9,7 +9,7 @@ Does not decide: value-level behaviour (runs, dictionary overflow, seek arithmet
 import re
 
 from mir import pl_fields, operand_places
-from tmpl import site, suffix, fate
+from tmpl import site, suffix, fate, local_defs
 
 COL = 'storage::secondary::column::'
 BLOCKTYPE = 'risinglight_proto::rowset::block_index::BlockType'
@@ -165,6 +165,47 @@ def run(ctx):
     ctx.floor(R5, n5, 8, 'block iterator implementations with next_batch and skip')
 
     fake_iter_rule(ctx, prog)
+    rle_runs_rule(ctx, prog)
+
+
+def rle_runs_rule(ctx, prog):
+    """C06-R7: the RLE block stores exactly one child value per run count"""
+    R7 = 'C06-R7'
+    ctx.rule(R7, 'RleBlockBuilder writes one value into its child block builder per run and one count per run (the reader fetches one '
+                 'child value per count): in append() a count is pushed only on a path that also appended the new value to the child '
+                 'builder; finish() pushes the count of the last run')
+    ap = next((b for n, b in prog.bodies.items() if re.search(r'rle_block_builder::RleBlockBuilder<A, B> as .*BlockBuilder<A>>::append$', n)), None)
+    fi = next((b for n, b in prog.bodies.items() if re.search(r'rle_block_builder::RleBlockBuilder<A, B> as .*BlockBuilder<A>>::finish$', n)), None)
+    if not (ctx.anchor(R7, 'RleBlockBuilder::append', ap is not None) and ctx.anchor(R7, 'RleBlockBuilder::finish', fi is not None)):
+        return
+    ctx.functions_analysed.update([ap.name, fi.name])
+
+    def field_calls(b, pat, field):
+        out = []
+        for c in b.calls:
+            if not re.search(pat, c.fn or c.name or ''):
+                continue
+            if not (c.args and c.args[0]['k'] != 'const'):
+                continue
+            hit = False
+            for bb, kind, payload in local_defs(b, c.args[0]['pl']['l']):
+                if kind == 'assign' and any(f.endswith('RleBlockBuilder::' + field) for pl in operand_places(payload) for f in pl_fields(pl)):
+                    hit = True
+            if hit:
+                out.append(c)
+        return out
+    pushes = field_calls(ap, r'Vec::<.*>::push$', 'rle_counts')
+    childs = field_calls(ap, r'BlockBuilder::append$', 'block_builder')
+    if ctx.anchor(R7, 'append: rle_counts.push / block_builder.append', pushes and childs):
+        cs = {c.bb for c in childs}
+        lone = [p for p in pushes if p.bb in ap.reachable_from([0], avoid=cs)]
+        ctx.ob(R7, 'RleBlockBuilder::append·count-with-value', not lone,
+               f'count pushes at {[p.bb for p in pushes]}, child appends at {sorted(cs)}; pushes reachable without a child append: {[p.bb for p in lone]}',
+               [site(ap, p.bb) for p in (lone or pushes)],
+               what='RleBlockBuilder::append records a run count without writing the run\'s value into the child block: the block has '
+                    'more counts than values and every later run decodes as its successor\'s value')
+    fp = field_calls(fi, r'Vec::<.*>::push$', 'rle_counts')
+    ctx.ob(R7, 'RleBlockBuilder::finish·last-count', bool(fp), f'finish pushes the last run count: {bool(fp)}', [fi.loc])
 
 
 def fake_iter_rule(ctx, prog):
